@@ -236,9 +236,11 @@ pub fn run(rec: &mut Rec, rng: &mut Rng, n: usize) {
         let mut flags = *rng.pick(&flagsets);
         let with_file = flags & libc::MAP_ANONYMOUS as u64 == 0 || rng.chance(1, 10);
         let (flen, fstart) = if with_file {
-            let fstart = *rng.pick(&[0u64, 0, 4096, 8192, 1, u64::MAX - 10, u64::MAX - size.min(1 << 40)]);
+            // (offsets of 2 GiB and 4 GiB and more: sparse files; whatever narrows the offset on the way to mmap shows there)
+            let fstart = *rng.pick(&[0u64, 0, 4096, 8192, 1, u64::MAX - 10, u64::MAX - size.min(1 << 40), 1 << 31, 1 << 32, (1 << 32) + 4096, (1 << 33) + (1 << 31)]);
             let end = fstart.saturating_add(size.min(1 << 40));
-            let flen = match rng.below(5) { 0 => end.min(1 << 30), 1 => end.saturating_sub(1).min(1 << 30), 2 => (end.saturating_add(1)).min(1 << 30), 3 => 0, _ => rng.below(20000) };
+            let cap = if fstart >= 1 << 31 && fstart < 1 << 40 { 1u64 << 35 } else { 1 << 30 };
+            let flen = match rng.below(5) { 0 => end.min(cap), 1 => end.saturating_sub(1).min(cap), 2 => (end.saturating_add(1)).min(cap), 3 => 0, _ => rng.below(20000) };
             (flen.to_string(), fstart)
         } else {
             ("none".to_string(), 0)
